@@ -530,7 +530,10 @@ class Weaver:
             dead = [(a, v[0]) for a, v in replace.items() if v[1] == ""]
             shapes = [("enum_rev", [".", "iter", "(", ")", ".", "enumerate", "(", ")", ".", "rev", "(", ")"]),
                       ("rev_enum", [".", "iter", "(", ")", ".", "rev", "(", ")", ".", "enumerate", "(", ")"]),
-                      ("enum", [".", "iter", "(", ")", ".", "enumerate", "(", ")"])]
+                      ("enum", [".", "iter", "(", ")", ".", "enumerate", "(", ")"]),
+                      # R26c `E.chars().enumerate()` on a &str: i = 0, 1, .., (number of chars)-1, c = the i-th char; vstd's exec
+                      # functions `unicode_len` / `get_char` are the specified way to say that
+                      ("chars_enum", [".", "chars", "(", ")", ".", "enumerate", "(", ")"])]
             for ordn, (kw, hb, hc) in enumerate(loops, 1):
                 if toks[kw].text != "for" or toks[kw + 1].text != "(" or any(a <= kw <= e for a, e in dead):
                     continue
@@ -549,11 +552,14 @@ class Weaver:
                 etext = "".join(sg.text for sg in self._render_range(kin + 1, hb - 1 - nsuf, subst, fired, unit, ctx, {}, {}, replace)).strip()
                 name = "verif_en%d" % ordn
                 replace[kw + 1] = (pc, ivar, "src", None)
-                rng = "0..%s.len()" % name
+                rng = "0..%s.%s()" % (name, "unicode_len" if shape == "chars_enum" else "len")
                 replace[kin + 1] = (hb - 1, ("(%s).rev() " % rng) if shape == "enum_rev" else rng + " ", "src", None)
                 add_before(kw, "let %s = %s;" % (name, etext), "R26")
-                elem = "%s[%s]" % (name, ivar) if shape != "rev_enum" else "%s[%s.len() - 1 - %s]" % (name, name, ivar)
-                ins_after.setdefault(hb, []).insert(0, ("\nlet %s = &%s;" % (bvar, elem), "R26"))
+                if shape == "chars_enum":
+                    elem = "%s.get_char(%s)" % (name, ivar)
+                else:
+                    elem = "&%s[%s]" % (name, ivar) if shape != "rev_enum" else "&%s[%s.len() - 1 - %s]" % (name, name, ivar)
+                ins_after.setdefault(hb, []).insert(0, ("\nlet %s = %s;" % (bvar, elem), "R26"))
                 fired("R26:enumerate-loop")
 
         # R3 size_of
